@@ -78,7 +78,7 @@ extern ssize_t mpt_message_argv(MPT_STRUCT(message) *msg, int sep)
 		msg->used = curr.iov_len -= part;
 	}
 	else if ((part = mpt_memfcn(cont, clen, notSpace, 0)) >= 0) {
-		while ((size_t) part > cont->iov_len) {
+		while ((size_t) part >= cont->iov_len) {
 			part -= cont->iov_len;
 			--clen;
 			++cont;
